@@ -38,8 +38,8 @@ RULE = ('cases: linear-basis models from {1, x, x^2, sin x, exp(-x), x2, x*x2} w
         'non-trivial: >= 2 parameters and at least one redundant data point and non-zero fluctuations compared (boundary / alias kinds: case judged); '
         'distinct = digest of (data, abscissae, model terms, priors, options)')
 ASSUMPTIONS = ['weights are the errors present on the data / priors when the fit is called (read by the harness immediately before the call)',
-               'values are compared in units of the closed-form parameter error: 1e-6 + 2e-7 sqrt(cond chi2) (Levenberg-Marquardt with its forward-difference Jacobian), 2e-3 (Nelder-Mead, Powell), 5e-3 (migrad: edm < 1e-7)',
-               'fluctuations and gradients: 1e-6 (+1e-14 cond) of the no-cancellation scale sum_k |S_ik| max|delta_k|; num_grad 2e-5',
+               'values are compared in units of the closed-form parameter error: 1e-8 + 2e-7 sqrt(cond chi2) (Levenberg-Marquardt with its forward-difference Jacobian), 2e-3 (Nelder-Mead, Powell), 5e-3 (migrad: edm < 1e-7)',
+               'fluctuations and gradients: 1e-10 + 3e-14 cond of the no-cancellation scale sum_k |S_ik| max|delta_k| (autograd Hessians are exact to rounding; measured ~1e-11); num_grad 2e-5; chi-square 1e-10, p-values 1e-13 / 1e-12, expected chi-square 1e-12 + eps cond(D^-1 A)^2 n / expected (normal equations in the library)',
                'problems with cond(A^T W A + P) > 1e8 are discarded (counted); non-converged derivative-free fits are counted, not judged',
                'replica means of the fitted parameters are not part of the property and are not compared',
                'chisquare/expected chisquare is judged for uncorrelated fits without priors only (not documented otherwise)',
@@ -77,7 +77,7 @@ def val_tol(method, sol):
     with a forward-difference Jacobian of relative accuracy ~1e-8) stops where J~^T r = 0, i.e. up to
     ~1e-8 sqrt(cond chi2) sigma from the minimum (measured: <= 2.2e-8); a factor 10 is allowed on top."""
     if method == 'Levenberg-Marquardt':
-        return 1e-6 + 2e-7 * float(np.sqrt(sol['cond_scaled'] * max(1.0, sol['chi2'])))
+        return 1e-8 + 2e-7 * float(np.sqrt(sol['cond_scaled'] * max(1.0, sol['chi2'])))
     return VAL_TOL[method]
 
 
@@ -144,7 +144,7 @@ def plan(tier):
     m = 1 if tier == 'quick' else 8
     return [('fit', 150 * m), ('corrfit', 72 * m), ('alias', 72 * m), ('history', 54 * m), ('scale', 60 * m), ('representation', 72 * m),
             ('chain', 54 * m), ('boundary', 56 * m), ('expchisq', 60 * m), ('spectator', 54 * m),
-            ('interface', 60 * m), ('rejection', 72 * m), ('degenerate', 81 * m)]
+            ('interface', 60 * m), ('rejection', 72 * m), ('degenerate', 99 * m)]
 
 
 # ------------------------------------------------------------------------------------------
@@ -256,7 +256,7 @@ def make_data(rng, means, mode, tier):
             cfgs = np.arange(1, l + 1)
             if mode == 'nested' and rng.random() < 0.6:
                 # half of the time all points keep the same number of configurations (equal summaries, different members)
-                size = int(l * 0.8) if equal_sizes else int(l * rng.uniform(0.6, 0.95))
+                size = int(l * 0.8) - (1 if (equal_sizes and i == npt - 1) else 0) if equal_sizes else int(l * rng.uniform(0.6, 0.95))     # one point one short
                 keep = np.sort(rng.choice(l, size=size, replace=False))
                 s, cfgs = s[keep], cfgs[keep]
             samples.append(s)
@@ -632,7 +632,8 @@ def judge(ctx, prob, opts, res, sol, mech, what):
     """Compare one Fit_result with the closed form. Returns extracted numbers for the metamorphic comparison."""
     k = prob['k']
     method = opts['method']
-    rt = (2e-5 if opts['num_grad'] else 1e-6) + 1e-14 * sol['cond']
+    # autograd Hessians are exact to rounding and the solve loses eps * cond: 1e-10 + 3e-14 cond (measured ~1e-11); numdifftools 2e-5
+    rt = (2e-5 + 1e-14 * sol['cond']) if opts['num_grad'] else (1e-10 + 3e-14 * sol['cond'])
     ctx.equal(len(res.fit_parameters), k, mech + ':number-of-parameters', what)
     psnaps = prior_snapshots(ctx, prob, res, sol, mech)
     if psnaps is None:
@@ -675,11 +676,12 @@ def judge(ctx, prob, opts, res, sol, mech, what):
             nontriv = True
     # chi-square: the weighted residual norm at the returned parameters, and equal to the minimum
     chi_at = gls.chi2_at(pv, prob['A'], sol['yv'], sol['W'], sol['pidx'], sol['pval'], sol['perr_in'])
-    ctx.close(res.chisquare, chi_at, mech + ':chisquare-at-returned-parameters', what, rtol=1e-8, scale=max(1.0, chi_at))
-    ctol = 1e-8 if method == 'Levenberg-Marquardt' else 2e-4
+    ctx.close(res.chisquare, chi_at, mech + ':chisquare-at-returned-parameters', what, rtol=1e-10, scale=max(1.0, chi_at))
+    ctol = (1e-10 + val_tol(method, sol) ** 2) if method == 'Levenberg-Marquardt' else 2e-4
     ctx.close(res.chisquare, sol['chi2'], mech + ':chisquare', what, rtol=ctol, scale=max(1.0, sol['chi2']))
     ctx.equal(int(res.dof), int(sol['dof']), mech + ':dof', what, detail={'points': len(sol['yv']), 'parameters': k, 'priors': len(sol['pidx'])})
-    ctx.close(res.p_value, gls.chi2_sf(float(res.chisquare), sol['dof']), mech + ':p_value', what, rtol=0.0, atol=1e-10)
+    ctx.count('judged:p_value:dof-%s' % ('0' if sol['dof'] <= 0 else '1' if sol['dof'] == 1 else '2-9' if sol['dof'] < 10 else '10+'))
+    ctx.close(res.p_value, gls.chi2_sf(float(res.chisquare), sol['dof']), mech + ':p_value', what, rtol=0.0, atol=1e-13)
     if sol['dof'] > 0:
         ctx.close(res.chisquare_by_dof, float(res.chisquare) / sol['dof'], mech + ':chisquare_by_dof', what, rtol=1e-13)
     else:
@@ -687,7 +689,9 @@ def judge(ctx, prob, opts, res, sol, mech, what):
     if opts['weights'] != 'diag':
         if ctx.require(hasattr(res, 't2_p_value'), mech + ':t2_p_value-missing', what):
             ctx.close(res.t2_p_value, gls.hotelling_p(float(res.chisquare), sol['dof'], sol['n_cov']), mech + ':t2_p_value', what,
-                      rtol=0.0, atol=1e-10, detail={'n_cov': sol['n_cov'], 'dof': sol['dof']})
+                      rtol=0.0, atol=1e-12, detail={'n_cov': sol['n_cov'], 'dof': sol['dof'], 'N_of_points': sorted(set(gls.n_samples(s_) for s_ in sol['snaps']))})
+            if len(set(gls.n_samples(s_) for s_ in sol['snaps'])) > 1:
+                ctx.count('judged:t2_p_value:points-with-different-N')
             ctx.count('hotelling_judged')
     else:
         ctx.require(not hasattr(res, 't2_p_value'), mech + ':t2_p_value-on-uncorrelated-fit', what)
@@ -697,7 +701,10 @@ def judge(ctx, prob, opts, res, sol, mech, what):
             cov = corr * np.outer(sol['dy'], sol['dy'])
             exp = gls.expected_chisquare(prob['A'], sol['dy'], cov)
             if exp > 1e-6 * len(sol['yv']):
-                ctx.close(res.chisquare_by_expected_chisquare, float(res.chisquare) / exp, mech + ':chisquare_by_expected_chisquare', what, rtol=1e-7)
+                # the library projects with pinv(A^T A) (normal equations): error eps * cond(D^-1 A)^2, amplified by the cancellation n / expected
+                condB = float(np.linalg.cond(np.diag(1.0 / sol['dy']) @ prob['A']))
+                ctx.close(res.chisquare_by_expected_chisquare, float(res.chisquare) / exp, mech + ':chisquare_by_expected_chisquare', what,
+                          rtol=1e-12 + 2.2e-16 * condB ** 2 * len(sol['yv']) / exp, detail={'cond_of_weighted_design_matrix': condB})
                 ctx.count('expected_chisquare_judged')
     ctx.equal(res.method, method, mech + ':method-field', what)
     return dict(p=pv, nontriv=nontriv, budget=budget, rt=rt, fl_tols=fl_tols)
@@ -729,7 +736,7 @@ def cross_compare(ctx, prob, opts, ra, rb, sol, info, mech, which):
         pa = sorted(n.split('_')[0] for n in sa['cov'] if n.startswith('#prior'))
         pb = sorted(n.split('_')[0] for n in sb['cov'] if n.startswith('#prior'))
         ctx.equal(pa, pb, mech + ':prior-names', which)
-    ct = 1e-8 if tight else 4e-4
+    ct = (1e-10 + 4 * val_tol(method, sol) ** 2) if tight else 4e-4
     ctx.close(ra.chisquare, rb.chisquare, mech + ':chisquare', which, rtol=ct, scale=max(1.0, abs(sol['chi2'])))
     ctx.equal(int(ra.dof), int(rb.dof), mech + ':dof', which)
 
@@ -1775,7 +1782,9 @@ def run_rejection_case(ctx, idx, rng):
         E(ctx, row, (ValueError,), lambda: fit(inv_chol_cov_matrix=[L, list(kl)[::-1]]), inputs, 'keys of inverse covariance matrix')
     elif row == 'supplied-matrix-not-lower-triangular':
         L, kl = kw['inv_chol_cov_matrix']
-        E(ctx, row, (ValueError,), lambda: fit(inv_chol_cov_matrix=[L.T.copy() if idx % 2 else -L, kl]), inputs, 'has to be a lower triangular matrix')
+        almost = L.copy()
+        almost[0, -1] = 1e-13 * abs(L[0, 0])             # lower triangular up to one entry of relative size 1e-13: still not a Cholesky factor
+        E(ctx, row, (ValueError,), lambda: fit(inv_chol_cov_matrix=[[L.T.copy(), -L, almost][(idx // 24) % 3], kl]), inputs, 'has to be a lower triangular matrix')
     elif row == 'prior-entry-not-obs-or-str':
         bad = list(pri)
         bad[int(rng.integers(0, len(bad)))] = float(prob['ptrue'][0])
@@ -1811,9 +1820,9 @@ def run_degenerate_case(ctx, idx, rng):
     cannot tell apart (copies, copies shifted by 1e-12) next to the original, equal central values on different data."""
     pe = PE
     variant = ['first-point-exactly-zero', 'all-points-exactly-zero-mean', 'prior-exactly-zero', 'falsy-options', 'empty-prior-dict', 'equal-copies',
-               'copy-shifted-1e-12', 'prior-is-copy-of-data-point', 'equal-central-values'][idx % 9]
-    o = hard_options(idx // 9, rng, weights=WEIGHTS[(idx // 9) % 3] if variant not in ('equal-copies', 'copy-shifted-1e-12', 'prior-is-copy-of-data-point') else ['diag', 'supplied'][(idx // 9) % 2],
-                     method=METHODS[(idx // 27) % 4])
+               'copy-shifted-1e-12', 'prior-is-copy-of-data-point', 'equal-central-values', 'one-point-with-tiny-error', 'one-point-of-tiny-size'][idx % 11]
+    o = hard_options(idx // 11, rng, weights=WEIGHTS[(idx // 11) % 3] if variant not in ('equal-copies', 'copy-shifted-1e-12', 'prior-is-copy-of-data-point') else ['diag', 'supplied'][(idx // 11) % 2],
+                     method=METHODS[(idx // 33) % 4])
     o['mode'] = 'shared' if o['weights'] == 'estimated' else str(rng.choice(['indep', 'shared']))
     if variant in ('prior-exactly-zero', 'prior-is-copy-of-data-point'):
         o['k'] = int(rng.integers(2, 5))
@@ -1868,6 +1877,19 @@ def run_degenerate_case(ctx, idx, rng):
             raise Skip()
         v = prob['ys'][int(rng.integers(0, len(prob['ys'])))]
         spec.append((int(rng.integers(0, k)), 'obs', copy_of(v, tag='prior copy')))
+    elif variant in ('one-point-with-tiny-error', 'one-point-of-tiny-size'):
+        # checklist item 21: tiny in ONE slot only (an error 1e-3 of the others; a central value and error 1e-6 of the others, placed where the
+        # model is made to vanish is not possible for a linear basis - the point is simply far below the model, chi-square is large)
+        d = int(rng.integers(0, len(sets)))
+        j = int(rng.integers(0, len(sets[d]['y'])))
+        v = sets[d]['y'][j]
+        if v.cov_names:
+            raise Skip()
+        sets[d]['y'] = list(sets[d]['y'])
+        if variant == 'one-point-with-tiny-error':
+            sets[d]['y'][j] = reanalysed((v - v.value) * 1e-3 + v.value, v)
+        else:
+            sets[d]['y'][j] = reanalysed(v * 1e-6, v)
     elif variant == 'equal-central-values':
         c0 = float(prob['ys'][0].value)
         for s_ in sets:
